@@ -19,15 +19,21 @@ from koala import example_graphs as eg
 
 DRIVERS = ("c06",)
 TRANSLATORS = ("ansatz",)
-MODEL_TARGETS = ["Model/AStar.vo", "Model/FluxSolver.vo", "Gen/AnsatzGen.vo"]
-TARGETS = ["Proofs/AStarFacts.vo", "Proofs/AStarOptimal.vo", "Proofs/AStarBudget.vo", "Proofs/ChainFlipFacts.vo", "Proofs/FluxSolverFacts.vo", "Proofs/AnsatzFacts.vo", "Proofs/GreedyPairingFacts.vo"]
+MODEL_TARGETS = ["Model/AStar.vo", "Model/FluxSolver.vo", "Model/FluxSolverLattice.vo", "Gen/AnsatzGen.vo"]
+TARGETS = ["Proofs/AStarFacts.vo", "Proofs/AStarOptimal.vo", "Proofs/AStarBudget.vo", "Proofs/ChainFlipFacts.vo", "Proofs/FluxSolverFacts.vo", "Proofs/AnsatzFacts.vo", "Proofs/GreedyPairingFacts.vo",
+           "Proofs/FluxSolverLatticeFacts.vo", "Proofs/FluxSolverOpen.vo", "Proofs/FluxSolverLatticeExamples.vo"]
 LEVEL = "proof"
 TRUST = [
     "hand-written Gallina model coq/Model/FluxSolver.v of flux_finder.py (fluxes_from_ujk, fluxes_from_bonds, _flip_adjacent_fluxes, _flip_isolated_fluxes, "
     "ujk_from_fluxes / find_flux_sector incl. both self-checks): modelled, not verified; tied by the correspondence run (bonds reproduced exactly)",
     "the greedy pairing is modelled as coded with its two implementation-defined choices (set.pop order, float min) as oracles constrained only to return a member, and PROVED to meet the pairing contract for every such pair (C06_solver_contract_greedy); "
-    "the A* search stays an oracle whose contract (valid simple plaquette chain between the pair) is a hypothesis (discharged for the A* model by C06_astar_oracle_contract), evaluated by the proved boolean checker on the paths captured from the implementation on every solver call",
-    "well-formedness fs_wf of (plaquettes, edges.adjacent_plaquettes) is a hypothesis (C01/C02's conclusion), evaluated on every lattice",
+    "the A* search: at tables level an oracle whose contract (valid simple plaquette chain between the pair) is a hypothesis, evaluated by the proved boolean checker on the paths captured from the implementation on every solver call; "
+    "END TO END (C06_lattice_solver_contract, Model/FluxSolverLattice.v) it is the A* MODEL on the adjacency lists of the model of graph_utils.adjacent_plaquettes, proved complete with budget n_edges on the lattice model "
+    "(C06_lattice_astar_complete, C06_lattice_astar_finds_iff_exists); tie to the code: the e2e correspondence run (model paths and bonds = implementation's, near-ties of the float cost excepted and counted)",
+    "well-formedness fs_wf of (plaquettes, edges.adjacent_plaquettes): PROVED for the tables of the lattice model (C06_lattice_tables_wf, from C01/C02's theorems); additionally evaluated on the implementation's tables on every lattice",
+    "cost function h (float distances between plaquette centres): hypothesis fsl_cost_ok (non-negative, positive between distinct neighbours, triangle inequality along listed edges) - true of the exact Euclidean metric, "
+    "evaluated exactly on the implementation's float values in every e2e run (violations by rounding on collinear centres are counted in coverage.end_to_end, not proved impossible)",
+    "fs_complete_open (the witness of C06_open_all_sectors_reachable) is NOT koala code: it exists only in the model; its output is checked on every open lattice of the e2e run with the harness' own flux formula",
     "translator translate/ansatz.py (Python int //, %, ** -> Z.div, Z.modulo, Z.pow): trusted, validated on n = 3..400 against the Python function on every run",
     "make_amorphous: Voronoi construction (Qhull), SAT colouring (glucose) and numpy RNG are outside the model; only the outputs are checked (S)",
     "non-mutation of arguments and the int8 dtype are observed on the implementation (fingerprints), not proved (the model is functional)",
@@ -338,6 +344,8 @@ def eval_lattice(ctx, case, lat, combos, label):
     # greedy-pairing replay (see check_greedy)
     check_greedy(ctx, label, lat, [(rcase, [int(x) for x in o["defects"][1:]], [(c_[0], c_[1]) for c_ in calls])
                                    for (rcase, r, calls, D), o in zip(metas, outs) if "defects" in o])
+    # end-to-end run: paths by the A* MODEL, adjacency lists by the model, pairing replayed (see check_e2e)
+    check_e2e(ctx, label, lat, [(rcase, r, calls, D) for (rcase, r, calls, D), o in zip(metas, outs) if o.get("res", ["?"])[0] == "OK"])
 
 
 # ================================================================== BEGIN greedy-pairing replay (K for C06_solver_contract_greedy)
@@ -379,6 +387,169 @@ def check_greedy(ctx, label, lat, items):
             ctx.k_mismatch(f"{label}: the implementation's pairs {pairs} are not a run of the greedy-pairing model on defects {defects}: "
                            f"replaying its own pop/min choices the model yields {mp}", rcase)
 # ================================================================== END greedy-pairing replay
+
+
+# ================================================================== BEGIN end-to-end run (K for C06_lattice_solver_contract, C06_open_completion)
+E2E_MAX_F = 130          # the A* model runs on unary nat with a list priority queue
+E2E_MAX_PAIRS = 10
+E2E_PER_LATTICE = 10
+E2E_MARGIN = 1e-9        # as C11: whole paths / bonds are compared only when every comparison the A* model branched on is separated by more
+
+
+def e2e_hvals(lat, goals):
+    """the floats the implementation's cost function returns (straight_line_length of plaquette centres), for every (plaquette, listed
+    neighbour) and every (plaquette, goal): exactly the arguments the A* of path_between_plaquettes evaluates it on"""
+    F = lat.n_plaquettes
+    cen = [np.asarray(p.center, dtype=float) for p in lat.plaquettes]
+    need = set()
+    for a, b in lat.edges.adjacent_plaquettes:
+        if a != INVALID and b != INVALID:
+            need.add((int(a), int(b)))
+            need.add((int(b), int(a)))
+    for a in range(F):
+        for g in goals:
+            need.add((a, g))
+    return {(a, b): float(pf.straight_line_length(cen[a], cen[b])) for (a, b) in need}
+
+
+def e2e_adj_pairs(lat):
+    """ordered pairs (x, y) of plaquettes sharing a two-sided edge"""
+    sset = set()
+    for a, b in lat.edges.adjacent_plaquettes:
+        if a != INVALID and b != INVALID:
+            sset.add((int(a), int(b)))
+            sset.add((int(b), int(a)))
+    return sset
+
+
+def check_e2e(ctx, label, lat, items):
+    """K(end to end): the solver model with the paths COMPUTED by the A* model on the adjacency lists COMPUTED by the model of
+    graph_utils.adjacent_plaquettes from the implementation's (plaquettes, edges.adjacent_plaquettes) tables, budget n_edges, early stopping,
+    cost = the implementation's float centre distances (exact dyadics); only the greedy choices are replayed.  Compared with the
+    implementation: every path (when no comparison of the search is a near-tie), the returned bonds, fs_connected_b against the harness'
+    union-find; on lattices with a boundary: fs_complete_open applied to the model's result realises the target EXACTLY (own flux formula)."""
+    st = ctx.res.extra.setdefault("end_to_end", {"runs": 0, "bonds_compared_exactly": 0, "paths_compared_exactly": 0, "near_tie_runs_validity_only": 0,
+                                                 "open_completions_checked": 0, "open_completions_odd": 0, "skipped_F_too_large": 0,
+                                                 "skipped_degenerate_centres": 0, "skipped_beyond_per_lattice_budget": 0,
+                                                 "cost_hypothesis_runs_exact": 0, "cost_hypothesis_runs_violated_by_rounding": 0,
+                                                 "cost_hypothesis_max_rel_violation": 0.0})
+    if lat.n_plaquettes > E2E_MAX_F:
+        st["skipped_F_too_large"] += len(items)
+        return
+    # prefer calls that need paths; keep a few trivial ones
+    items = [it for it in items if len(it[2]) <= E2E_MAX_PAIRS]
+    rich = [it for it in items if len(it[2]) >= 1]
+    poor = [it for it in items if len(it[2]) == 0]
+    chosen = rich[:E2E_PER_LATTICE - 2] + poor[:2]
+    st["skipped_beyond_per_lattice_budget"] += len(items) - len(chosen)
+    lines, metas = [], []
+    adjp = e2e_adj_pairs(lat)
+    for rcase, r, calls, D in chosen:
+        conv = rcase["conv"]
+        t_eff = np.full(lat.n_plaquettes, -1 if conv == 0 else 1, dtype=int) if rcase["target"] is None else np.asarray(rcase["target"], dtype=int)
+        g_eff = np.ones(lat.n_edges, dtype=int) if rcase["guess"] is None else np.asarray(rcase["guess"], dtype=int)
+        goals = {c[1] for c in calls}
+        for a, b in lat.edges.adjacent_plaquettes:      # the boundary plaquette fs_complete_open routes to (first one-sided edge)
+            if (a == INVALID) != (b == INVALID):
+                goals.add(int(b if a == INVALID else a))
+                break
+        hval = e2e_hvals(lat, sorted(goals))
+        if any(v <= 0 for (a, b), v in hval.items() if a != b):
+            st["skipped_degenerate_centres"] += 1
+            continue
+        S = common_scale(list(hval.values()))
+        # hypothesis fsl_cost_ok of C06_lattice_solver_contract, evaluated EXACTLY on the float values the implementation's cost function
+        # returns: consistency h(x,g) <= h(x,y) + h(y,g) along every listed edge, towards every goal of this call (positivity was checked
+        # above).  Float rounding may break it by an ulp where centres are collinear (regular tilings): counted, not an alarm.
+        hi = {k: int(Fraction(v) * S) for k, v in hval.items()}
+        gl = sorted(goals)
+        viol, worst = 0, 0.0
+        for (x, y) in adjp:
+            for g_ in gl:
+                d = hi[(x, g_)] - hi[(x, y)] - hi[(y, g_)]
+                if d > 0:
+                    viol += 1
+                    worst = max(worst, d / S / max(hval[(x, g_)], 1e-300))
+        st["cost_hypothesis_runs_exact" if viol == 0 else "cost_hypothesis_runs_violated_by_rounding"] += 1
+        st["cost_hypothesis_max_rel_violation"] = max(st["cost_hypothesis_max_rel_violation"], worst)
+        toks = ["e2e", str(conv), str(lat.n_plaquettes)]
+        for p in lat.plaquettes:
+            toks.append(str(len(p.edges)))
+            for e, d in zip(p.edges, p.directions):
+                toks += [str(int(e)), hx(int(d))]
+        toks.append(str(lat.n_edges))
+        for a, b in lat.edges.adjacent_plaquettes:
+            toks += ["N" if a == INVALID else str(int(a)), "N" if b == INVALID else str(int(b))]
+        toks.append(str(len(t_eff)))
+        toks += [hx(int(x)) for x in t_eff]
+        toks.append(str(len(g_eff)))
+        toks += [hx(int(x)) for x in g_eff]
+        toks.append(str(len(calls)))
+        for c in calls:
+            toks += [str(c[0]), str(c[1])]
+        toks.append(str(len(hval)))
+        for (a, b), v in hval.items():
+            toks += [str(a), str(b), hx(int(Fraction(v) * S))]
+        lines.append(" ".join(toks))
+        metas.append((rcase, r, calls, D, t_eff, g_eff, hval, S))
+    outs = run_driver_parallel(ctx.exe["c06"], lines)
+    for (rcase, r, calls, D, t_eff, g_eff, hval, S), o in zip(metas, outs):
+        if "error" in o:
+            raise RuntimeError(f"c06 driver e2e: {' '.join(o['error'])}")
+        st["runs"] += 1
+        ctx.res.traces += 1
+        conv = rcase["conv"]
+        if getattr(ctx, "xc06", None) is not None and lat.n_vertices <= XCHECK_MAX_V:
+            ctx.xc06["e2e"].append((lat, rcase, calls, t_eff, g_eff, hval, S, o))
+        if o["conn"][0] != "1":
+            ctx.k_mismatch(f"{label}: fs_connected_b says the plaquette graph is not connected, the harness' union-find says it is", rcase)
+        near = False
+        for i, c in enumerate(calls):
+            m = o[f"apath{i}"]
+            if m[0] != "P":
+                ctx.k_mismatch(f"{label}: A* model on the modelled adjacency lists, pair {c[0]}->{c[1]}: {m[0]} (E=PathFindingError, C=crash), the implementation found a path", rcase)
+                near = True
+                continue
+            cur = Cursor(m[1:])
+            mg = cur.next()
+            mnodes, medges = cur.list(cur.int), cur.list(cur.int)
+            if mg != "N" and unhx(mg) / S <= E2E_MARGIN:
+                near = True
+                continue
+            st["paths_compared_exactly"] += 1
+            if mnodes != c[2] or medges != c[3]:
+                ctx.k_mismatch(f"{label}: end-to-end model path {c[0]}->{c[1]}: {mnodes},{medges} != implementation {c[2]},{c[3]}", rcase)
+        if o["res"][0] != "OK":
+            ctx.k_mismatch(f"{label}: end-to-end model result {o['res'][0]}, implementation returned bonds", rcase)
+            continue
+        cur = Cursor(o["res"][1:])
+        mb = cur.list(cur.z)
+        if not near:
+            st["bonds_compared_exactly"] += 1
+            if mb != [int(x) for x in r]:
+                ctx.k_mismatch(f"{label}: end-to-end model bonds differ from the implementation's on {sum(1 for x, y in zip(mb, r) if x != int(y))} edges", rcase)
+        else:
+            st["near_tie_runs_validity_only"] += 1
+            mism = int(np.count_nonzero(own_flux(lat, np.asarray(mb), conv) != t_eff))
+            if mism != D % 2:
+                ctx.k_mismatch(f"{label}: end-to-end model bonds (near-tie run) miss the target on {mism} plaquettes, {D} had to change", rcase)
+        # open boundaries: the completion of C06_open_completion on the model's result
+        has_boundary = any((a == INVALID) != (b == INVALID) for a, b in lat.edges.adjacent_plaquettes)
+        if (o["boundary"][0] != "N") != has_boundary:
+            ctx.k_mismatch(f"{label}: fs_find_boundary {o['boundary']} but the table {'has' if has_boundary else 'has no'} one-sided edge", rcase)
+        if has_boundary:
+            if o["complete"][0] == "N":
+                ctx.k_mismatch(f"{label}: fs_complete_open returned None on a connected lattice with a boundary edge", rcase)
+            else:
+                cur = Cursor(o["complete"])
+                cb = cur.list(cur.z)
+                st["open_completions_checked"] += 1
+                st["open_completions_odd"] += D % 2
+                if len(cb) != lat.n_edges or any(x not in (1, -1) for x in cb) or np.count_nonzero(own_flux(lat, np.asarray(cb), conv) != t_eff):
+                    ctx.k_mismatch(f"{label}: fs_complete_open's bonds do not realise the target exactly on an open lattice ({D} plaquettes had to change)", rcase)
+                if D % 2 == 0 and cb != mb:
+                    ctx.k_mismatch(f"{label}: fs_complete_open changed bonds that already realise the target", rcase)
+# ================================================================== END end-to-end run
 
 
 # ------------------------------------------------------------------ extraction cross-check (DESIGN 1.3)
@@ -448,12 +619,57 @@ def coq_crosscheck(ctx):
             want = {"MINEMPTY": "FG_MinEmptyError", "FUEL": "FG_OutOfFuel"}[o["greedy"][0]]
         g(f"fs_greedy_run (fs_replay_pick {caps}) (fs_replay_nearest {caps}) {nl(defects)}", want)
         g(f"fs_pairing_ok {nl(defects)} (greedy_pairing (fs_replay_pick {caps}) (fs_replay_nearest {caps}) {nl(defects)})", X.boolean(o["greedy_ok"][0] == "1"))
+    # end-to-end runs (command e2e): connectivity checker, A* paths on the modelled adjacency lists, fs_solve_astar, boundary completion
+    plats = {}
+
+    def plaq_defs(lat):
+        n = lat_defs(lat)
+        if n not in plats:
+            plats[n] = True
+            body.append(f"Definition PS{n} : list plaquette := " + X.lst(
+                lambda p: f"(plaq_of_arrays [] {nl([int(e) for e in p.edges])} {X.lst(lambda d: X.boolean(int(d) == 1), p.directions)})", lat.plaquettes) + ".")
+        return n
+    body += ["Definition xh (tbl : list ((nat * nat) * Z)) (a b : nat) : Z :=",
+             "  match find (fun r => (fst (fst r) =? a)%nat && (snd (fst r) =? b)%nat) tbl with Some r => snd r | None => 0 end."]
+    for j, (lat, rcase, calls, t_eff, g_eff, hval, S, o) in enumerate(pick([x for x in xc["e2e"] if x[0].n_plaquettes <= 40], 3 if quick else 30)):
+        n = plaq_defs(lat)
+        conv = rcase["conv"]
+        body.append(f"Definition HT{j} : list ((nat * nat) * Z) := " + X.lst(lambda kv: f"(({X.nat(kv[0][0])}, {X.nat(kv[0][1])}), {X.z(int(Fraction(kv[1]) * S))})", list(hval.items())) + ".")
+        T, G = X.zlist(t_eff), X.zlist(g_eff)
+        caps = X.lst(X.natpair, [(c[0], c[1]) for c in calls])
+        nE = X.nat(lat.n_edges)
+        g(f"fs_connected_b EP{n} {X.nat(lat.n_plaquettes)}", X.boolean(o["conn"][0] == "1"))
+        for i, c in enumerate(calls[:3]):
+            m = o[f"apath{i}"]
+            if m[0] == "P":
+                cur = Cursor(m[1:])
+                mg = cur.next()
+                mnodes, medges = cur.list(cur.int), cur.list(cur.int)
+                want = f"AS_Path {nl(mnodes)} {nl(medges)} " + ("None" if mg == "N" else f"(Some {X.z(unhx(mg))})")
+            else:
+                continue
+            g(f"as_path (fsl_adj PS{n} EP{n}) (xh HT{j}) {X.nat(c[0])} {X.nat(c[1])} true {nE}", want)
+        want = {"LEFTOVER": "FS_LeftoverError", "MISMATCH": "FS_MismatchError", "PATHERR": "FS_PathError"}.get(o["res"][0])
+        mb = None
+        if want is None:
+            cur = Cursor(o["res"][1:])
+            mb = cur.list(cur.z)
+            want = "FS_Ok " + X.zlist(mb)
+        g(f"fs_solve_astar {X.boolean(conv == 1)} PS{n} EP{n} (xh HT{j}) (fs_replay_pick {caps}) (fs_replay_nearest {caps}) {T} {G}", want)
+        g(f"fs_find_boundary EP{n}", "None" if o["boundary"][0] == "N" else f"Some ({X.nat(int(o['boundary'][0]))}, {X.nat(int(o['boundary'][1]))})")
+        if mb is not None:
+            flux = f"({'fs_fluxes_ujk' if conv == 0 else 'fs_fluxes_bonds'} (fsl_plaqs PS{n}))"
+            cwant = "None"
+            if o["complete"][0] != "N":
+                cur = Cursor(o["complete"])
+                cwant = "Some " + X.zlist(cur.list(cur.z))
+            g(f"fs_complete_open {flux} EP{n} (fsl_path PS{n} EP{n} (xh HT{j}) {nE}) {T} {X.zlist(mb)}", cwant)
     if xc["ansatz"] is not None:
         ns, gsa, sr = xc["ansatz"]
         g(f"map ground_state_ansatz {X.zlist(ns)}", X.zlist(gsa))
         g(f"map fs_sign_real {nl(ns)}", X.zlist(sr))
     res = ctx.res
-    res.extra["extraction_crosscheck_goals_vm_compute"] = X.compile_goals("c06", "Model.AStar Model.FluxSolver Gen.AnsatzGen", body, "c06")
+    res.extra["extraction_crosscheck_goals_vm_compute"] = X.compile_goals("c06", "Model.Lattice Model.AStar Model.Flux Model.FluxSolver Model.FluxSolverLattice Gen.AnsatzGen", body, "c06")
     res.extra["extraction_crosscheck_pool"] = {k: (len(v) if k != "ansatz" else int(v is not None)) for k, v in xc.items()}
     res.extra["extraction_crosscheck_wall_s"] = X.LAST_WALL
 
@@ -572,7 +788,7 @@ def run(ctx):
                     "only lattices whose plaquette-adjacency graph is connected; per lattice x {ujk_from_fluxes, find_flux_sector}: default arguments, all 2^F targets when F <= "
                     f"{9 if quick else 10} (alternating default / random guess), else random sparse/dense targets (int8 and int64) with random guesses; "
                     "make_amorphous L=3..8 both boundary conditions, 2 (quick) / 12 seeds + the two recorded failing seeds; non-trivial = at least 2 plaquettes have to change")
-    ctx.xc06 = {"wf": [], "solve": [], "greedy": [], "ansatz": None}     # driver answers on small lattices, for the extraction cross-check
+    ctx.xc06 = {"wf": [], "solve": [], "greedy": [], "e2e": [], "ansatz": None}     # driver answers on small lattices, for the extraction cross-check
     eval_ansatz_table(ctx)
     evaluate(ctx, c06_lattice_cases(ctx.tier, ctx.seed), "K(solver)", 9 if quick else 10)
     coq_crosscheck(ctx)      # extraction cross-check: a sample of the driver's answers re-derived inside Coq
